@@ -1,36 +1,99 @@
 ----------------------------- MODULE O2OValidate -----------------------------
-(* C15 (subset of the rule classes): which diagnostics a derive input must get.
-   in == [traits |-> Seq([n, cp, err]),
-          tattrs |-> Seq([n |-> "ghosts"|"where_clause"|"child_parents", cp]),
-          ms     |-> Seq(Seq([n |-> "map"|"ghost_nd"|"ghost_d"|"child", cp]))]          *)
+(* C15: which diagnostics a derive input must get (the documented configuration rules), and nothing else.
+   in == [dt     |-> "struct" | "enum",  shape |-> "named" | "tuple"      (struct shape; variants are unit / tuple),
+          traits |-> Seq([n, cp, err, hint]),          hint \in {"-", "struct"}
+          tattrs |-> Seq([n, cp, own]),                type-level instructions other than trait instructions
+          ms     |-> Seq(Seq([n, cp, own]))]           member-level instructions, per member (field / variant)
+   A fault is [c |-> class, a |-> argument]; the argument is what the diagnostic names (type, member, instruction).
+   Written from the property statement, README ("Contents" sections on each instruction) and the error-path tests'
+   *intent*; the concrete wording lives in the harness's key phrases only. *)
 EXTENDS O2OImpls, TLC
+
+TypeLevelOk   == {"ghosts", "where_clause", "child_parents"}
+\* names that are member instructions and therefore misplaced on a type (README: "member level instructions")
+TypeMisplaced == {"parent", "literal", "pattern", "type_hint"}
+\* near-misses the documentation anticipates ("Perhaps you meant ...")
+TypeMisnamed  == {"children", "ghost", "child"}
+MemberOk      == {"map", "ghost_nd", "ghost_d", "child", "parent0", "literal", "pattern", "type_hint"}
+MemberMisplaced == {"where_clause"}
+MemberMisnamed  == {"children", "child_parents"}
+Unknown == {"bogus"}
 
 CpsOf(in) == {in.traits[i].cp : i \in DOMAIN in.traits}
 KindsFor(in, cp) == UNION {Appl(in.traits[i].n) : i \in {j \in DOMAIN in.traits : in.traits[j].cp = cp}}
 HasFrom(in, cp) == KindsFor(in, cp) \cap {"FO", "FR"} # {}
 HasInto(in, cp) == KindsFor(in, cp) \cap {"OI", "RI"} # {}
-
-AllMemberAttrs(in) == UNION {{in.ms[i][j] : j \in DOMAIN in.ms[i]} : i \in DOMAIN in.ms}
-UnknownCp(in) == {[c |-> "unknown_cp", a |-> x.cp] : x \in {y \in ({in.tattrs[i] : i \in DOMAIN in.tattrs} \cup AllMemberAttrs(in)) : y.cp # "-" /\ y.cp \notin CpsOf(in)}}
-
+ToSetQ(s) == {s[i] : i \in DOMAIN s}
+AllMemberAttrs(in) == UNION {ToSetQ(in.ms[i]) : i \in DOMAIN in.ms}
 Count(s, P(_)) == Cardinality({i \in DOMAIN s : P(s[i])})
-SecondDefault(in) == {[c |-> "second_default", a |-> n] : n \in {m \in {"ghosts", "where_clause", "child_parents"} : Count(in.tattrs, LAMBDA x : x.n = m /\ x.cp = "-") > 1}}
-SecondDedicated(in) == {[c |-> "second_dedicated", a |-> p[1] \o ":" \o p[2]] :
-                          p \in {q \in {"ghosts", "where_clause", "child_parents"} \X {"A", "B", "Z"} : Count(in.tattrs, LAMBDA x : x.n = q[1] /\ x.cp = q[2]) > 1}}
 
-\* a ghost without default is a fault for every counterpart that has a From conversion it applies to
+\* instructions that are recognised at the level where they stand (only these take part in the semantic rules)
+UnsupportedOn(dt) == IF dt = "struct" THEN {"literal", "pattern", "type_hint"} ELSE {"parent0", "child"}
+RecognisedT(in) == {x \in ToSetQ(in.tattrs) : x.n \in TypeLevelOk}
+RecognisedM(in, i) == {x \in ToSetQ(in.ms[i]) : x.n \in MemberOk \ UnsupportedOn(in.dt)}
+
+\* class 4: dedicated to a type no trait instruction mentions
+UnknownCp(in) == {[c |-> "unknown_cp", a |-> x.cp] :
+                    x \in {y \in (RecognisedT(in) \cup UNION {RecognisedM(in, i) : i \in DOMAIN in.ms}) : y.cp # "-" /\ y.cp \notin CpsOf(in)}}
+
+\* class 5: at most one default, at most one dedicated per type -- type level
+SecondDefaultT(in) == {[c |-> "second_default", a |-> n] : n \in {m \in TypeLevelOk : Count(in.tattrs, LAMBDA x : x.n = m /\ x.cp = "-") > 1}}
+SecondDedicatedT(in) == {[c |-> "second_dedicated", a |-> p[1] \o ":" \o p[2]] :
+                          p \in {q \in TypeLevelOk \X {"A", "B", "Z"} : Count(in.tattrs, LAMBDA x : x.n = q[1] /\ x.cp = q[2]) > 1}}
+\* class 5, member level: parent on struct fields; literal / pattern / type_hint on enum variants
+PerMemberUnique(in) == IF in.dt = "struct" THEN {"parent0"} ELSE {"literal", "pattern", "type_hint"}
+InstrLabel(n) == IF n = "parent0" THEN "parent" ELSE n
+SecondDefaultM(in) == {[c |-> "second_default", a |-> InstrLabel(n)] :
+                         n \in {m \in PerMemberUnique(in) : \E i \in DOMAIN in.ms : Count(in.ms[i], LAMBDA x : x.n = m /\ x.cp = "-") > 1}}
+SecondDedicatedM(in) == {[c |-> "second_dedicated", a |-> InstrLabel(p[1]) \o ":" \o p[2]] :
+                          p \in {q \in PerMemberUnique(in) \X {"A", "B", "Z"} : \E i \in DOMAIN in.ms : Count(in.ms[i], LAMBDA x : x.n = q[1] /\ x.cp = q[2]) > 1}}
+
+\* class 6: misplaced / misnamed / unknown instructions.  A bare attribute o2o does not know is somebody else's attribute
+\* (no diagnostic); written inside #[o2o(...)] it is o2o's own and must be reported.
+Misplaced(in) == {[c |-> "misplaced", a |-> x.n] : x \in {y \in ToSetQ(in.tattrs) : y.n \in TypeMisplaced}}
+                 \cup {[c |-> "misplaced", a |-> x.n] : x \in {y \in AllMemberAttrs(in) : y.n \in MemberMisplaced}}
+                 \cup {[c |-> "misplaced", a |-> "child"] : x \in {y \in ToSetQ(in.tattrs) : y.n = "child" /\ in.dt = "enum"}}
+\* the diagnostic names the instruction the author probably meant (two near-misses with one guess are one diagnostic, DESIGN 8.6)
+GuessT(n) == IF n = "ghost" THEN "ghosts" ELSE "child_parents"
+GuessM(n) == "child"
+Misnamed(in) == {[c |-> "misnamed", a |-> GuessT(x.n)] : x \in {y \in ToSetQ(in.tattrs) : y.n \in TypeMisnamed /\ ~(y.n = "child" /\ in.dt = "enum")}}
+                \cup {[c |-> "misnamed", a |-> GuessM(x.n)] : x \in {y \in AllMemberAttrs(in) : y.n \in MemberMisnamed /\ ~(y.n = "children" /\ in.dt = "enum")}}
+                \cup {[c |-> "misplaced", a |-> "children"] : x \in {y \in AllMemberAttrs(in) : y.n = "children" /\ in.dt = "enum"}}
+UnknownInstr(in) == {[c |-> "unknown_instr", a |-> x.n] : x \in {y \in (ToSetQ(in.tattrs) \cup AllMemberAttrs(in)) : y.n \in Unknown /\ y.own}}
+
+\* class 7: a ghost without default is a fault for every counterpart that has a From conversion it applies to (struct fields)
 GhostNoDefault(in) ==
+  IF in.dt # "struct" THEN {} ELSE
   {[c |-> "ghost_no_default", a |-> "s" \o ToString(p[1]) \o ":" \o p[2]] :
      p \in {q \in (DOMAIN in.ms) \X CpsOf(in) :
-              HasFrom(in, q[2]) /\ \E j \in DOMAIN in.ms[q[1]] : in.ms[q[1]][j].n = "ghost_nd" /\ in.ms[q[1]][j].cp \in {"-", q[2]}}}
+              HasFrom(in, q[2]) /\ \E x \in RecognisedM(in, q[1]) : x.n = "ghost_nd" /\ x.cp \in {"-", q[2]}}}
 
-ChildParentsFor(in, cp) == \E i \in DOMAIN in.tattrs : in.tattrs[i].n = "child_parents" /\ in.tattrs[i].cp \in {"-", cp}
+\* class 8: child without child_parents (struct fields, for every counterpart that has an Into conversion)
+ChildParentsFor(in, cp) == \E x \in RecognisedT(in) : x.n = "child_parents" /\ x.cp \in {"-", cp}
 ChildNoParents(in) ==
+  IF in.dt # "struct" THEN {} ELSE
   {[c |-> "child_no_parents", a |-> cp] :
      cp \in {q \in CpsOf(in) : HasInto(in, q) /\ ~ChildParentsFor(in, q)
-                               /\ \E x \in AllMemberAttrs(in) : x.n = "child" /\ x.cp \in {"-", q}}}
+                               /\ \E i \in DOMAIN in.ms : \E x \in RecognisedM(in, i) : x.n = "child" /\ x.cp \in {"-", q}}}
+
+\* class 9: tuple struct mapped to a named counterpart (`as {}`) needs a member name on every mapped member, for every conversion.
+\* A member is excused when it is a ghost or a parent for that counterpart.
+NamedFor(in, i, cp) == \E x \in RecognisedM(in, i) : x.n = "map" /\ x.cp \in {"-", cp}
+ExcusedFor(in, i, cp) == \E x \in RecognisedM(in, i) : x.n \in {"ghost_d", "ghost_nd", "parent0"} /\ x.cp \in {"-", cp}
+TupleNamed(in) ==
+  IF in.dt # "struct" \/ in.shape # "tuple" THEN {} ELSE
+  {[c |-> "tuple_named_mismatch", a |-> ToString(p[1] - 1)] :
+     p \in {q \in (DOMAIN in.ms) \X (DOMAIN in.traits) :
+              in.traits[q[2]].hint = "struct" /\ ~NamedFor(in, q[1], in.traits[q[2]].cp) /\ ~ExcusedFor(in, q[1], in.traits[q[2]].cp)}}
+
+\* class 12: instruction not supported on this kind of member
+Unsupported(in) ==
+  IF in.dt = "struct" THEN {[c |-> "unsupported_member", a |-> x.n] : x \in {y \in AllMemberAttrs(in) : y.n \in {"literal", "pattern", "type_hint"}}}
+  ELSE {[c |-> "unsupported_member", a |-> "parent"] : x \in {y \in AllMemberAttrs(in) : y.n = "parent0"}}
 
 Bare(S) == {[c |-> x, a |-> "-"] : x \in S}
-Faults(in) == Bare(TraitFaults(in.traits)) \cup UnknownCp(in) \cup SecondDefault(in) \cup SecondDedicated(in)
-              \cup GhostNoDefault(in) \cup ChildNoParents(in)
+Faults(in) == Bare(TraitFaults(in.traits)) \cup UnknownCp(in) \cup SecondDefaultT(in) \cup SecondDedicatedT(in)
+              \cup SecondDefaultM(in) \cup SecondDedicatedM(in) \cup Misplaced(in) \cup Misnamed(in) \cup UnknownInstr(in)
+              \cup GhostNoDefault(in) \cup ChildNoParents(in) \cup TupleNamed(in) \cup Unsupported(in)
+FaultKeys(in) == {x.c \o "/" \o x.a : x \in Faults(in)}
 =============================================================================
